@@ -100,7 +100,7 @@ func vhMainCount(s *Signature) int {
 //verif:param k quick=2..3 thorough=2..4
 //verif:param level 0,3
 //verif:param nf quick=1..2 thorough=1..2
-//verif:param perm quick=0,5 thorough=0..23
+//verif:param perm quick=0,5 thorough=0,5,7,23
 //verif:summarize (*Signature).similar (*Signature).equal (*Signature).less (*Stack).less
 //verif:replay-iters 200
 func VH_C13_AggregateOrder(k, level, nf, perm int) {
